@@ -263,6 +263,10 @@ VERIF_HARNESS(c20_b1_wellknown) {
   }
   if (bl > 0) VERIF_ASSERT(((st & COAP_PRINT_STATUS_TRUNC) != 0) == (off + expw < total), "B1 truncation flag exactly when listing remains");
 #ifdef WITNESS
+#if NRES == 2 && FILTER == 0
   if (expw > 2 && off > total / 2 && total > 8) VERIF_REACH("B1 window in the second resource");
+#else
+  if (expw >= 1 && off >= 1) VERIF_REACH("B1 inner window");
+#endif
 #endif
 }
